@@ -1,1 +1,21 @@
-From VP Require Import Base.Tactics Sase.Model Sase.Props.
+(* Pins the C01 statements. Compiled on every run. *)
+From VP Require Import Base.Tactics Zdd.Model Zdd.ProofsBase Zdd.ProofsPwo Zdd.ProofsArena
+  Sase.Model Sase.ProofsBounds Sase.ProofsSound Sase.ProofsSoundEngine Sase.ProofsCompile Sase.ProofsKleene Sase.Props.
+Check (C01_matches_have_derivations_partial :
+  forall steps negs part max_runs st lim evs out,
+    run_collect (mkCfg (compile steps) negs part max_runs st lim) engine0 evs = Some out ->
+    Forall (Forall (genuine (compile steps) negs evs)) out).
+Check (C01_step_invariant :
+  forall g P en x en' ms, flags_ok (g_nfa g) -> all_good g P en -> process g en x = Some (en', ms) ->
+    all_good g (P ++ [x]) en' /\ Forall (genuine (g_nfa g) (g_negs g) (P ++ [x])) ms).
+(* the notions the statements use *)
+Check (eq_refl : genuine = fun n negs P m =>
+  exists es st q, infix es P /\ deriv n negs es st q /\ accepting n q /\ m_stack m = map (fun x => eid (fst x)) st).
+Check (d_take : forall n negs es st q x q' s',
+      deriv n negs es st q -> nhit negs x (caps_of st) = false -> move n q q' ->
+      nth_error n q' = Some s' -> matches_state s' x (caps_of st) = true ->
+      deriv n negs (es ++ [x]) (st ++ [(x, s_alias s')]) q').
+Check (d_skip : forall n negs es st q x,
+      deriv n negs es st q -> nhit negs x (caps_of st) = false -> deriv n negs (es ++ [x]) st q).
+Print Assumptions C01_matches_have_derivations_partial.
+Print Assumptions C01_step_invariant.
